@@ -328,9 +328,23 @@ def r7_cancelled_contained(ctx):
     must therefore contain CancelledError, or one such callback stops the
     server from reading the channel for good."""
     m = ctx.model
-    from ..effects import _dynamic_callee
     top = m.method('AsyncPubSubManager', '_thread')
-    reach = [f for f in m.reachable(top) if f.is_async]
+    n = cancelled_contained_from(
+        ctx, top, 'escapes into the pub/sub listener, which treats it as '
+        'its own cancellation and stops for good')
+    if n < 3:
+        raise AnalysisError('C15.R7 found only %d awaited application '
+                            'coroutines on the listener path' % n)
+
+
+def cancelled_contained_from(ctx, top, consequence, only=None):
+    """every await of an application coroutine in the coroutines reachable
+    from `top` sits in a try that contains CancelledError -> number of such
+    awaits"""
+    m = ctx.model
+    from ..effects import _dynamic_callee
+    reach = [f for f in m.reachable(top) if f.is_async and
+             (only is None or only(f))]
     n = 0
     for f in reach:
         parent = {}
@@ -375,15 +389,108 @@ def r7_cancelled_contained(ctx):
                       'coroutine (%s) contains CancelledError' % U(v)[:40],
                       key='cancelled-escapes', reason='a CancelledError '
                       'raised by the application coroutine awaited at line '
-                      '%d escapes into the pub/sub listener, which treats '
-                      'it as its own cancellation and stops for good'
-                      % node.lineno, where=where(f, node))
-    if n < 3:
-        raise AnalysisError('C15.R7 found only %d awaited application '
-                            'coroutines on the listener path' % n)
+                      '%d %s' % (node.lineno, consequence),
+                      where=where(f, node))
+    return n
+
+
+def r8_handlers_cannot_fail(ctx, cname, fname):
+    """the except handlers that keep a loop alive must not raise themselves:
+    a name they read is bound on every way into the handler - not only
+    inside the try body (the exception may precede the first assignment:
+    UnboundLocalError leaves the loop for good) - and they index nothing."""
+    m = ctx.model
+    f = m.own_method(cname, fname)
+    construct = '%s.%s' % (cname, fname)
+    params = set(f.params)
+    n = 0
+
+    def assigned_in(nodes):
+        out = set()
+        for b in nodes:
+            for x in ast.walk(b):
+                if isinstance(x, ast.Name) and isinstance(
+                        x.ctx, (ast.Store, ast.Del)):
+                    out.add(x.id)
+                if isinstance(x, (ast.For, ast.AsyncFor)):
+                    for y in ast.walk(x.target):
+                        if isinstance(y, ast.Name):
+                            out.add(y.id)
+                if isinstance(x, ast.ExceptHandler) and x.name:
+                    out.add(x.name)
+        return out
+    all_assigned = assigned_in([f.node])
+
+    def before(node, root):
+        """names assigned on every path before `node` is entered: walk the
+        statement lists from the function body down to node, collecting the
+        assignments of the statements that precede it (straight-line only)"""
+        got = set()
+
+        def visit(stmts):
+            nonlocal got
+            for st in stmts:
+                if st is node:
+                    return True
+                inside = any(y is node for y in ast.walk(st))
+                if inside:
+                    for fld in ('body', 'orelse', 'finalbody', 'handlers'):
+                        sub = getattr(st, fld, None)
+                        if isinstance(sub, list) and sub and any(
+                                y is node for z in sub for y in ast.walk(z)):
+                            if fld == 'handlers':
+                                sub = [z for z in sub if any(
+                                    y is node for y in ast.walk(z))][0].body
+                            if isinstance(st, (ast.For, ast.AsyncFor)) and \
+                                    fld == 'body':
+                                got |= assigned_in([st.target])
+                            return visit(sub)
+                    return True
+                # a statement wholly before: its unconditional assignments
+                if isinstance(st, (ast.Assign, ast.AugAssign, ast.AnnAssign,
+                                   ast.Import, ast.ImportFrom)):
+                    got |= assigned_in([st])
+            return False
+        visit(root.body)
+        return got
+    for t in walk_own(f.node):
+        if not isinstance(t, ast.Try):
+            continue
+        pre = before(t, f.node)
+        for h in t.handlers:
+            n += 1
+            local_pre = pre | ({h.name} if h.name else set())
+            bad = []
+            for x in ast.walk(h):
+                if isinstance(x, ast.Name) and isinstance(x.ctx, ast.Load) \
+                        and x.id in all_assigned and x.id not in params \
+                        and x.id not in local_pre and \
+                        x.id not in assigned_in(h.body):
+                    bad.append(x)
+            ctx.check(not bad, construct, 'the handler at line %d reads only '
+                      'names bound before its try statement' % h.lineno,
+                      key='handler-unbound', reason='the except handler at '
+                      'line %d reads `%s`, which is first assigned inside '
+                      'the try body: when the exception comes before that '
+                      'assignment the handler itself raises '
+                      'UnboundLocalError and the loop it was keeping alive '
+                      'ends for good' % (h.lineno, bad[0].id if bad else ''),
+                      where=where(f, bad[0] if bad else h))
+    return n
 
 
 def run(ctx):
+    ctx.rule('C15.R8', 'the handlers that keep the listener / listen loops '
+             'alive cannot fail themselves (no possibly-unbound names)',
+             floor=6)
+    k = 0
+    for cname in ('PubSubManager', 'AsyncPubSubManager'):
+        k += r8_handlers_cannot_fail(ctx, cname, '_thread')
+    for cname, fname in (('RedisManager', '_redis_listen_with_retries'),
+                         ('AsyncRedisManager', '_redis_listen_with_retries'),
+                         ('RedisManager', '_publish'),
+                         ('AsyncRedisManager', '_publish')):
+        k += r8_handlers_cannot_fail(ctx, cname, fname)
     ctx.rule('C15.R7', 'asyncio: CancelledError raised by application '
              'coroutines is contained before it reaches the listener',
              floor=3)
